@@ -26,7 +26,9 @@ structure RuleSim (envA envB : Env) (A B : List Rule) (a b : Rule) : Prop where
   omv : a.objectMapType ≠ .parentTM → b.objectMapValue = a.objectMapValue
   table : envA.table a = envB.table b
   parent : a.objectMapType = .parentTM →
-    (∃ pa pb, findRule A a.objectMapValue = some pa ∧ findRule B b.objectMapValue = some pb ∧ ParentSim envA envB pa pb) ∨
+    (∃ pa pb, findRule A a.objectMapValue = some pa ∧ findRule B b.objectMapValue = some pb ∧ ParentSim envA envB pa pb ∧
+      -- the test of the configuration section of `_remove_self_joins_no_condition` decides the same on both sides
+      (a.sourceName = pa.sourceName ↔ b.sourceName = pb.sourceName)) ∨
     (findRule A a.objectMapValue = none ∧ findRule B b.objectMapValue = none ∧ b.objectMapValue = a.objectMapValue)
 
 theorem rowTriple_sim {envA envB : Env} (he : EnvSim envA envB) (a : Rule) (i s v : Str) (k : MapType) (ov al : Str) :
@@ -55,7 +57,7 @@ theorem evalRule_sim {envA envB : Env} (he : EnvSim envA envB) {A B : List Rule}
     rw [hot]
     split
     · rename_i hp
-      rcases hpar hp with ⟨pa, pb, hfa, hfb, hps⟩ | ⟨hfa, hfb, hv⟩
+      rcases hpar hp with ⟨pa, pb, hfa, hfb, hps, _⟩ | ⟨hfa, hfb, hv⟩
       · have hfb' : findRule B v = some pb := hfb
         rw [hfa, hfb']
         simp only []
@@ -146,8 +148,10 @@ theorem RuleSim.retable {envA envB : Env} {A B : List Rule} {a b : Rule} (h : Ru
     RuleSim envA envB (A.map (eliminateSelfJoin A)) (B.map (eliminateSelfJoin B)) a b := by
   refine ⟨h.fields, h.omv, h.table, fun hp => ?_⟩
   rw [findRule_map_keep A _ (tmId_eliminateSelfJoin A), findRule_map_keep B _ (tmId_eliminateSelfJoin B)]
-  rcases h.parent hp with ⟨pa, pb, hfa, hfb, hps⟩ | ⟨hfa, hfb, hv⟩
-  · exact .inl ⟨_, _, by rw [hfa]; rfl, by rw [hfb]; rfl, hps.elim⟩
+  rcases h.parent hp with ⟨pa, pb, hfa, hfb, hps, hsn⟩ | ⟨hfa, hfb, hv⟩
+  · refine .inl ⟨_, _, by rw [hfa]; rfl, by rw [hfb]; rfl, hps.elim, ?_⟩
+    rw [(eliminateSelfJoin_keeps A pa).2.2.2.2.2, (eliminateSelfJoin_keeps B pb).2.2.2.2.2]
+    exact hsn
   · exact .inr ⟨by rw [hfa]; rfl, by rw [hfb]; rfl, hv⟩
 
 theorem subjRefsAreJoinCols_congr {a a' pa pb : Rule} (hj : a'.objectJoin = a.objectJoin)
@@ -159,17 +163,19 @@ theorem subjRefsAreJoinCols_congr {a a' pa pb : Rule} (hj : a'.objectJoin = a.ob
 theorem eliminateSelfJoin_sim {envA envB : Env} {A B : List Rule} {a b : Rule} (h : RuleSim envA envB A B a b) :
     RuleSim envA envB (A.map (eliminateSelfJoin A)) (B.map (eliminateSelfJoin B)) (eliminateSelfJoin A a) (eliminateSelfJoin B b) := by
   by_cases hp : a.objectMapType = .parentTM
-  · rcases h.parent hp with ⟨pa, pb, hfa, hfb, hps⟩ | ⟨hfa, hfb, hv⟩
+  · rcases h.parent hp with ⟨pa, pb, hfa, hfb, hps, hsn⟩ | ⟨hfa, hfb, hv⟩
     · obtain ⟨i, s, v, rfl⟩ := h.fields
+      have hsn' : decide (s = pb.sourceName) = decide (a.sourceName = pa.sourceName) := decide_eq_decide.mpr hsn.symm
       have hfb' : B.find? (fun p => p.tmId = v) = some pb := hfb
       have hfa' : A.find? (fun p => p.tmId = a.objectMapValue) = some pa := hfa
       have hsj : subjRefsAreJoinCols { a with tmId := i, sourceName := s, objectMapValue := v } pb = subjRefsAreJoinCols a pa :=
         subjRefsAreJoinCols_congr rfl hps.smt hps.smv
-      by_cases hc : (a.logicalSourceValue = pa.logicalSourceValue && a.iterator = pa.iterator && a.objectJoin.all (fun cp => cp.1 = cp.2)
-          && subjRefsAreJoinCols a pa) = true
-      · have hcb : (a.logicalSourceValue = pb.logicalSourceValue && a.iterator = pb.iterator && a.objectJoin.all (fun cp => cp.1 = cp.2)
+      by_cases hc : (a.sourceName = pa.sourceName && a.logicalSourceValue = pa.logicalSourceValue && a.iterator = pa.iterator
+          && a.objectJoin.all (fun cp => cp.1 = cp.2) && subjRefsAreJoinCols a pa) = true
+      · have hcb : (s = pb.sourceName && a.logicalSourceValue = pb.logicalSourceValue && a.iterator = pb.iterator
+            && a.objectJoin.all (fun cp => cp.1 = cp.2)
             && subjRefsAreJoinCols { a with tmId := i, sourceName := s, objectMapValue := v } pb) = true := by
-          rw [← hps.lsv, ← hps.iterator, hsj]; exact hc
+          rw [hsn', ← hps.lsv, ← hps.iterator, hsj]; exact hc
         have ea : eliminateSelfJoin A a = { a with objectMapType := pa.subjectMapType, objectMapValue := pa.subjectMapValue,
                                                     objectTermtype := pa.subjectTermtype, objectJoin := [] } := by
           unfold eliminateSelfJoin
@@ -185,9 +191,10 @@ theorem eliminateSelfJoin_sim {envA envB : Env} {A B : List Rule} {a b : Rule} (
         refine ⟨⟨i, s, pa.subjectMapValue, rfl⟩, fun _ => rfl, ?_, fun hpp => absurd hpp hps.smt_ne⟩
         have := h.table
         exact this
-      · have hcb : ¬ (a.logicalSourceValue = pb.logicalSourceValue && a.iterator = pb.iterator && a.objectJoin.all (fun cp => cp.1 = cp.2)
+      · have hcb : ¬ (s = pb.sourceName && a.logicalSourceValue = pb.logicalSourceValue && a.iterator = pb.iterator
+            && a.objectJoin.all (fun cp => cp.1 = cp.2)
             && subjRefsAreJoinCols { a with tmId := i, sourceName := s, objectMapValue := v } pb) = true := by
-          rw [← hps.lsv, ← hps.iterator, hsj]; exact hc
+          rw [hsn', ← hps.lsv, ← hps.iterator, hsj]; exact hc
         have ea : eliminateSelfJoin A a = a := by
           unfold eliminateSelfJoin
           rw [if_pos hp, hfa']
